@@ -50,7 +50,7 @@ func (k *checker) latitude(r *rec, fn *ssa.Function, mode angleMode) {
 	seen := map[string]bool{}
 	for _, p := range sd.res.Paths {
 		for _, ev := range p.Events {
-			if ev.Loop == nil || ev.In != sd.fn {
+			if ev.Loop == nil || !k.own(sd.fn, ev.In) {
 				continue
 			}
 			var vals []c17.Val
